@@ -29,6 +29,7 @@ def main():
     ap.add_argument("--files", default=",".join(FILES))
     ap.add_argument("--out", default="/verif/out/mutsweep")
     ap.add_argument("--limit", type=int, default=0)
+    ap.add_argument("--generator", default="/verif/bin/mutgen", help="mutgen (syntactic) or /verif/bin/mutgen2 (type-aware: same-typed identifier, field, constant and argument swaps; takes no file arguments)")
     ap.add_argument("--only-kinds", default="")
     ap.add_argument("--resume", action="store_true")
     ap.add_argument("--recheck", action="store_true", help="re-run only the checks on the survivors recorded in <out>/survivors.jsonl (after the rules changed)")
@@ -36,7 +37,7 @@ def main():
     a = ap.parse_args()
     os.makedirs(a.out, exist_ok=True)
     files = a.files.split(",")
-    rc, out = run(["/verif/bin/mutgen"] + files, "/repo")
+    rc, out = run([a.generator] + ([] if a.generator.endswith("mutgen2") else files), "/repo")
     muts = [json.loads(l) for l in out.splitlines() if l.startswith("{")]
     if a.only_kinds:
         ks = a.only_kinds.split(",")
